@@ -9,7 +9,7 @@
    (3) the boolean [good_names] means: no duplicate, same set, no placeholder;
    (4) layer 2 (guarded name lists) is exactly layer 1 (objects + dict) as long
        as the guard holds. *)
-From Coq Require Import String List Bool Arith Lia.
+From Coq Require Import String List Bool Arith Lia Permutation.
 From PV Require Import Lib.Strings Model.NameProtocol.
 Import ListNotations.
 
@@ -405,4 +405,1330 @@ Theorem partition_no_loss_no_dup : forall (A : Type) (m : ffmap) (rs : list (@re
 Proof.
   intros A m rs. pose proof (@assign_partition A m rs) as P. split; [exact P|].
   intros Hn. eapply Permutation_NoDup; [apply Permutation_sym; exact P | exact Hn].
+Qed.
+
+(* ======================================================================
+   Parametric protocol theorems (arbitrary residues)
+   ====================================================================== *)
+(* ---- name-list lemmas ------------------------------------------------------ *)
+
+Lemma In_remove_first : forall x l y, NoDup l -> (In y (remove_first x l) <-> In y l /\ y <> x).
+Proof.
+  induction l as [|z l IH]; cbn; intros y Hn.
+  - tauto.
+  - inversion Hn as [|? ? Hz Hl]; subst. destruct (String.eqb x z) eqn:E.
+    + apply String.eqb_eq in E. subst z. split.
+      * intros Hy. split; [auto|]. intros ->. contradiction.
+      * intros [[->|Hy] Hne]; [congruence|auto].
+    + apply String.eqb_neq in E. cbn. rewrite IH by auto. split.
+      * intros [->|[Hy Hne]]; split; auto.
+      * intros [[->|Hy] Hne]; auto.
+Qed.
+
+Lemma NoDup_remove_first : forall x l, NoDup l -> NoDup (remove_first x l).
+Proof.
+  induction l as [|z l IH]; cbn; intros Hn; auto.
+  inversion Hn; subst. destruct (String.eqb x z); auto.
+  constructor; auto. rewrite In_remove_first by auto. tauto.
+Qed.
+
+Lemma remove_first_notin : forall x l, ~ In x l -> remove_first x l = l.
+Proof.
+  induction l as [|z l IH]; cbn; intros H; auto.
+  destruct (String.eqb x z) eqn:E.
+  - apply String.eqb_eq in E. subst. tauto.
+  - f_equal. apply IH. tauto.
+Qed.
+
+Lemma remove_first_app_last : forall x l, ~ In x l -> remove_first x (l ++ [x]) = l.
+Proof.
+  induction l as [|z l IH]; cbn; intros H.
+  - rewrite String.eqb_refl. reflexivity.
+  - destruct (String.eqb x z) eqn:E.
+    + apply String.eqb_eq in E. subst. tauto.
+    + f_equal. apply IH. tauto.
+Qed.
+
+Lemma In_replace_first : forall o n l y, NoDup l -> In o l ->
+  (In y (replace_first o n l) <-> (In y l /\ y <> o) \/ y = n).
+Proof.
+  induction l as [|z l IH]; cbn; intros y Hn Ho; [tauto|].
+  inversion Hn as [|? ? Hz Hl]; subst. destruct (String.eqb o z) eqn:E.
+  - apply String.eqb_eq in E. subst z. cbn. split.
+    + intros [->|Hy]; auto. left. split; auto. intros ->. contradiction.
+    + intros [[[->|Hy] Hne]| ->]; auto. congruence.
+  - apply String.eqb_neq in E. destruct Ho as [->|Ho]; [congruence|]. cbn. rewrite IH by auto. split.
+    + intros [->|[[Hy Hne]| ->]]; auto.
+    + intros [[[->|Hy] Hne]| ->]; auto.
+Qed.
+
+Lemma NoDup_replace_first : forall o n l, NoDup l -> ~ In n l -> NoDup (replace_first o n l).
+Proof.
+  induction l as [|z l IH]; cbn; intros Hn Hnn; auto.
+  inversion Hn as [|? ? Hz Hl]; subst. destruct (String.eqb o z) eqn:E.
+  - constructor; auto.
+  - constructor; [|apply IH; auto].
+    intros Hin. destruct (in_dec string_dec o l) as [Ho|Ho].
+    + apply In_replace_first in Hin; auto. destruct Hin as [[Hin _]| ->]; auto.
+    + assert (replace_first o n l = l) as Hr.
+      { clear -Ho. induction l as [|q l IH]; cbn; auto. destruct (String.eqb o q) eqn:E.
+        - apply String.eqb_eq in E. subst. cbn in Ho. tauto.
+        - f_equal. apply IH. cbn in Ho. tauto. }
+      rewrite Hr in Hin. auto.
+Qed.
+
+Lemma NoDup_app_last : forall (l : nl) x, NoDup l -> ~ In x l -> NoDup (l ++ [x]).
+Proof.
+  intros l x Hn Hx.
+  apply Permutation.Permutation_NoDup with (l := x :: l).
+  - apply Permutation.Permutation_cons_append.
+  - constructor; auto.
+Qed.
+
+Lemma has_In : forall n w, has n w = true <-> In n (w_names w).
+Proof. intros. unfold has. apply mem_In. Qed.
+
+Lemma has_false : forall n w, has n w = false <-> ~ In n (w_names w).
+Proof.
+  intros. rewrite <- has_In. split.
+  - intros H H1. rewrite H in H1. discriminate.
+  - intros H. destruct (has n w); auto. exfalso. apply H. reflexivity.
+Qed.
+
+Lemma cr_spec : forall n w, ~ In n (w_names w) ->
+  exists w', cr n w = Some w' /\ w_names w' = (w_names w ++ [n])%list.
+Proof.
+  intros n w H. unfold cr. apply has_false in H. unfold has in H. rewrite H. eexists. split; reflexivity.
+Qed.
+
+Lemma rm_spec : forall n w, In n (w_names w) ->
+  exists w', rm n w = Some w' /\ w_names w' = remove_first n (w_names w).
+Proof.
+  intros n w H. unfold rm. apply has_In in H. unfold has in H. rewrite H. eexists. split; reflexivity.
+Qed.
+
+Lemma rn_spec : forall o n w, In o (w_names w) -> ~ In n (w_names w) ->
+  exists w', rn o n w = Some w' /\ w_names w' = replace_first o n (w_names w).
+Proof.
+  intros o n w Ho Hn. unfold rn. apply has_In in Ho. apply has_false in Hn. unfold has in *.
+  rewrite Ho, Hn. cbn. eexists. split; reflexivity.
+Qed.
+
+(* ---- removing every name that satisfies p, iterating a snapshot ----------- *)
+
+Definition rm_pred (p : string -> bool) (todo : nl) (w : W) : option W :=
+  fold_left (fun acc a => acc >>= fun w' => if p a then rm a w' else Some w') todo (Some w).
+
+Lemma rm_pred_spec : forall p todo w, NoDup (w_names w) -> NoDup todo ->
+  (forall a, In a todo -> p a = true -> In a (w_names w)) ->
+  exists w', rm_pred p todo w = Some w' /\ NoDup (w_names w') /\
+             forall y, In y (w_names w') <-> In y (w_names w) /\ ~ (p y = true /\ In y todo).
+Proof.
+  unfold rm_pred. induction todo as [|a r IH]; intros w Hn Hnt Hin.
+  - exists w. cbn. split; auto. split; auto. intros y. tauto.
+  - inversion Hnt as [|? ? Ha Hr]; subst. cbn [fold_left bind]. destruct (p a) eqn:Ep.
+    + destruct (rm_spec a w) as [w1 [E1 N1]]; [apply Hin; cbn; auto|]. rewrite E1.
+      destruct (IH w1) as [w' [E' [Nd' S']]].
+      * rewrite N1. apply NoDup_remove_first; auto.
+      * auto.
+      * intros b Hb Hpb. rewrite N1. apply In_remove_first; auto. split; [apply Hin; cbn; auto|].
+        intros ->. contradiction.
+      * exists w'. split; auto. split; auto. intros y. rewrite S', N1, In_remove_first by auto. cbn. split.
+        -- intros [[Hy Hne] Hnp]. split; auto. intros [Hp [->|Hyr]]; [congruence|tauto].
+        -- intros [Hy Hnp]. split; [split; auto|].
+           ++ intros ->. apply Hnp. auto.
+           ++ intros [Hp Hyr]. apply Hnp. auto.
+    + destruct (IH w) as [w' [E' [Nd' S']]]; auto.
+      * intros b Hb Hpb. apply Hin; cbn; auto.
+      * exists w'. split; auto. split; auto. intros y. rewrite S'. cbn. split.
+        -- intros [Hy Hnp]. split; auto. intros [Hp [->|Hyr]]; [congruence|tauto].
+        -- intros [Hy Hnp]. split; auto. intros [Hp Hyr]. apply Hnp. auto.
+Qed.
+
+(* ---- Alcoholic, for arbitrary residues ------------------------------------ *)
+
+
+Section AlcParam.
+  Variables (h : string) (base : nl).
+  Hypothesis Hwf : wf_alc h base = true.
+
+  Let base' := remove_first h base.
+  Definition T3 (x : string) : Prop := x = h \/ x = "LP1"%string \/ x = "LP2"%string.
+
+  Definition AInv (l : nl) : Prop :=
+    NoDup l /\ (forall x, In x base' -> In x l) /\ (forall x, In x l -> In x base' \/ T3 x).
+
+  Lemma wf_alc_parts : NoDup base /\ (forall x, In x base -> placeholder x = false) /\ placeholder h = false.
+  Proof.
+    pose proof Hwf as W. unfold wf_alc in W. apply andb_true_iff in W. destruct W as [W W3].
+    apply andb_true_iff in W. destruct W as [W1 W2].
+    split; [apply nodupb_NoDup; auto|]. split.
+    - intros x Hx. rewrite forallb_forall in W2. specialize (W2 x Hx). destruct (placeholder x); auto; discriminate.
+    - destruct (placeholder h); auto; discriminate.
+  Qed.
+
+  Lemma base'_props : NoDup base' /\ ~ In h base' /\ (forall x, In x base' -> placeholder x = false).
+  Proof.
+    destruct wf_alc_parts as [Hn [Hp _]]. unfold base'. split; [apply NoDup_remove_first; auto|]. split.
+    - rewrite In_remove_first by auto. tauto.
+    - intros x Hx. apply In_remove_first in Hx; auto. apply Hp. tauto.
+  Qed.
+
+  Lemma AInv_add : forall l n, AInv l -> ~ In n l -> T3 n -> AInv (l ++ [n]).
+  Proof.
+    intros l n [Hn [Hb Hs]] Hni Ht. split; [apply NoDup_app_last; auto|]. split.
+    - intros x Hx. apply in_or_app. left. auto.
+    - intros x Hx. apply in_app_or in Hx. destruct Hx as [Hx|[<-|[]]]; auto.
+  Qed.
+
+  Lemma try_create_inv : forall t n w, AInv (w_names w) -> ~ In n (w_names w) -> T3 n ->
+    exists w', try_create t n w = Some w' /\ AInv (w_names w').
+  Proof.
+    intros t n w Hi Hni Ht. destruct t; cbn [try_create].
+    - exists w. auto.
+    - destruct (cr_spec n w Hni) as [w1 [E1 N1]]. rewrite E1. cbn [bind].
+      destruct (rm_spec n w1) as [w2 [E2 N2]]; [rewrite N1; apply in_or_app; right; cbn; auto|].
+      exists w2. split; auto. rewrite N2, N1, remove_first_app_last; auto.
+    - destruct (cr_spec n w Hni) as [w1 [E1 N1]]. exists w1. split; auto. rewrite N1. apply AInv_add; auto.
+  Qed.
+
+  Definition PInv (s : pst) : Prop := AInv (names s) /\ fixed s = false.
+
+  Lemma fin_inv : forall s fx w, AInv (w_names w) -> fx = false ->
+    exists s' o, fin s fx (hl s) (al s) (Some w) = Next s' o /\ PInv s'.
+  Proof. intros s fx w Hi Hf. eexists. eexists. split; [reflexivity|]. split; cbn; auto. Qed.
+
+  Lemma alc_step_inv : forall s l, PInv s -> exists s' o, alc_step h s l = Next s' o /\ PInv s'.
+  Proof.
+    intros s l [Hi Hf]. assert (Hs : w_names (start s) = names s) by reflexivity.
+    destruct l as [t|t|]; cbn [alc_step].
+    - unfold alc_try_donor. destruct (has h (start s)) eqn:Eh.
+      + apply fin_inv; auto.
+      + destruct (in13 _).
+        * destruct (try_create_inv t h (start s)) as [w' [E' I']]; auto.
+          { apply has_false; auto. } { left; auto. }
+          rewrite E'. apply fin_inv; auto.
+        * apply fin_inv; auto.
+    - unfold alc_try_acceptor, lp_name. destruct (has "LP2" (start s)) eqn:E2.
+      + apply fin_inv; auto.
+      + destruct (has "LP1" (start s)) eqn:E1.
+        * destruct (in13 _); [|apply fin_inv; auto].
+          destruct (try_create_inv t "LP2"%string (start s)) as [w' [E' I']]; auto.
+          { apply has_false; auto. } { right; right; auto. }
+          rewrite E'. apply fin_inv; auto.
+        * destruct (in13 _); [|apply fin_inv; auto].
+          destruct (try_create_inv t "LP1"%string (start s)) as [w' [E' I']]; auto.
+          { apply has_false; auto. } { right; left; auto. }
+          rewrite E'. apply fin_inv; auto.
+    - unfold alc_finalize. rewrite Hf. destruct (has h (start s)) eqn:Eh; [apply fin_inv; auto|].
+      destruct (in13 _); [|apply fin_inv; auto].
+      destruct (cr_spec h (start s)) as [w1 [E1 N1]]; [apply has_false; auto|]. rewrite E1.
+      apply fin_inv; auto. rewrite N1. apply AInv_add; auto. { apply has_false in Eh. auto. } left; auto.
+  Qed.
+
+  Lemma alc_run_inv : forall ls s, PInv s ->
+    exists s' o, run _ (alc_step h) s ls = Next s' o /\ PInv s'.
+  Proof.
+    induction ls as [|l ls IH]; intros s Hs; cbn [run].
+    - eexists. eexists. split; [reflexivity|auto].
+    - destruct (alc_step_inv s l Hs) as [s1 [o1 [E1 I1]]]. rewrite E1. apply IH. auto.
+  Qed.
+
+  Lemma alc_start_inv : exists s0 o, alc_start h base = Next s0 o /\ PInv s0.
+  Proof.
+    destruct wf_alc_parts as [Hn [Hp Hph]]. destruct base'_props as [Hn' [Hh' Hp']].
+    unfold alc_start. destruct (has h (mkW base [])) eqn:Eh.
+    - destruct (rm_spec h (mkW base [])) as [w1 [E1 N1]]; [apply has_In; auto|]. rewrite E1.
+      eexists. eexists. split; [reflexivity|]. unfold PInv. cbn [names fixed]. split; [|reflexivity].
+      rewrite N1. cbn [w_names]. fold base'. unfold AInv. split; [auto|]. split; auto.
+    - eexists. eexists. split; [reflexivity|]. unfold PInv. cbn [names fixed]. split; [|reflexivity].
+      apply has_false in Eh. cbn in Eh. assert (base' = base) as Hb by (apply remove_first_notin; auto).
+      unfold AInv. rewrite Hb. split; [auto|]. split; auto.
+  Qed.
+
+  Lemma alc_bonds_in13 : forall w, has h w = false -> in13 (alc_bonds h w) = true.
+  Proof.
+    intros w Eh. unfold alc_bonds, count_present. cbn [filter]. rewrite Eh.
+    destruct (has "LP1" w), (has "LP2" w); reflexivity.
+  Qed.
+
+  Lemma isLP_placeholder : forall x, isLP x = true -> placeholder x = true.
+  Proof. intros x H. unfold placeholder. rewrite H. destruct (isF x); reflexivity. Qed.
+
+  Lemma alc_complete_ok : forall s, PInv s ->
+    exists s' o, alc_complete h s tt = Next s' o /\ final_ok (alc_expected h base) (names s').
+  Proof.
+    intros s [Hi Hf]. destruct wf_alc_parts as [Hn [Hp Hph]]. destruct base'_props as [Hn' [Hh' Hp']].
+    unfold alc_complete.
+    assert (exists w1, alc_finalize h (fixed s) (start s) = Some w1 /\ AInv (w_names w1) /\ In h (w_names w1)) as [w1 [E1 [I1 H1]]].
+    { unfold alc_finalize. rewrite Hf. destruct (has h (start s)) eqn:Eh.
+      - exists (start s). split; auto. split; auto. apply has_In in Eh. auto.
+      - rewrite alc_bonds_in13 by auto. destruct (cr_spec h (start s)) as [w1 [E1 N1]]; [apply has_false; auto|].
+        exists w1. split; auto. rewrite N1. split.
+        + apply AInv_add; auto. { apply has_false in Eh. auto. } left; auto.
+        + apply in_or_app. right. cbn. auto. }
+    rewrite E1. cbn [bind]. destruct I1 as [Nd1 [Hb1 Hs1]].
+    destruct (rm_pred_spec isLP (w_names w1) w1) as [w2 [E2 [Nd2 S2]]]; auto.
+    unfold remove_lps. unfold rm_pred in E2. rewrite E2. eexists. eexists. split; [reflexivity|]. cbn [names].
+    assert (HLP1 : isLP "LP1" = true) by reflexivity. assert (HLP2 : isLP "LP2" = true) by reflexivity.
+    assert (Hhlp : isLP h = false).
+    { destruct (isLP h) eqn:E; auto. apply isLP_placeholder in E. congruence. }
+    split; [auto|]. split.
+    - intros x. rewrite S2. unfold alc_expected. fold base'. split.
+      + intros [Hx Hnp]. apply in_or_app. destruct (Hs1 x Hx) as [Hb|[->|[->| ->]]]; auto.
+        * right. cbn. auto.
+        * exfalso. apply Hnp. auto.
+        * exfalso. apply Hnp. auto.
+      + intros Hx. apply in_app_or in Hx. destruct Hx as [Hx|[<-|[]]].
+        * split; auto. intros [Hl _]. apply isLP_placeholder in Hl. rewrite Hp' in Hl; auto. discriminate.
+        * split; auto. intros [Hl _]. congruence.
+    - intros x Hx. apply S2 in Hx. destruct Hx as [Hx Hnp].
+      destruct (Hs1 x Hx) as [Hb|[->|[->| ->]]]; auto.
+      + exfalso. apply Hnp. auto.
+      + exfalso. apply Hnp. auto.
+  Qed.
+
+  Theorem alc_names_param : proto_ok _ _ (alc_step h) (alc_complete h) (alc_expected h base) (alc_start h base).
+  Proof.
+    destruct alc_start_inv as [s0 [o0 [E0 I0]]]. rewrite E0. cbn [proto_ok]. intros ls.
+    destruct (alc_run_inv ls s0 I0) as [s [o [E I]]]. rewrite E. intros [].
+    destruct (alc_complete_ok s I) as [s' [o' [E' F']]]. rewrite E'. exact F'.
+  Qed.
+End AlcParam.
+
+(* ---- Water, for arbitrary residues ---------------------------------------- *)
+
+
+Section WatParam.
+  Variable base : nl.
+  Hypothesis Hwf : wf_wat base = true.
+  Local Open Scope string_scope.
+
+  Definition T4 (x : string) : Prop := x = "H1" \/ x = "H2" \/ x = "LP1" \/ x = "LP2".
+
+  Definition WInv (l : nl) : Prop :=
+    NoDup l /\ (forall x, In x base -> In x l) /\ (forall x, In x l -> In x base \/ T4 x) /\
+    (In "H2" l -> In "H1" l).
+
+  Lemma wf_wat_parts : NoDup base /\ (forall x, In x base -> placeholder x = false) /\ (In "H2" base -> In "H1" base).
+  Proof.
+    pose proof Hwf as W. unfold wf_wat in W. apply andb_true_iff in W. destruct W as [W W3].
+    apply andb_true_iff in W. destruct W as [W1 W2].
+    split; [apply nodupb_NoDup; auto|]. split.
+    - intros x Hx. rewrite forallb_forall in W2. specialize (W2 x Hx). destruct (placeholder x); auto; discriminate.
+    - intros H2. apply mem_In in H2. rewrite H2 in W3. cbn in W3. apply mem_In. auto.
+  Qed.
+
+  Lemma WInv_add : forall l n, WInv l -> ~ In n l -> T4 n -> (n = "H2" -> In "H1" l) -> WInv (l ++ [n])%list.
+  Proof.
+    intros l n [Hn [Hb [Hs H21]]] Hni Ht Hh. split; [apply NoDup_app_last; auto|]. split; [|split].
+    - intros x Hx. apply in_or_app. left. auto.
+    - intros x Hx. apply in_app_or in Hx. destruct Hx as [Hx|[<-|[]]]; auto.
+    - intros H2. apply in_or_app. left. apply in_app_or in H2. destruct H2 as [H2|[E|[]]]; auto.
+  Qed.
+
+  Lemma try_create_invW : forall t n w, WInv (w_names w) -> ~ In n (w_names w) -> T4 n ->
+    (n = "H2" -> In "H1" (w_names w)) ->
+    exists w', try_create t n w = Some w' /\ WInv (w_names w') /\ (forall x, In x (w_names w) -> In x (w_names w')).
+  Proof.
+    intros t n w Hi Hni Ht Hh. destruct t; cbn [try_create].
+    - exists w. auto.
+    - destruct (cr_spec n w Hni) as [w1 [E1 N1]]. rewrite E1. cbn [bind].
+      destruct (rm_spec n w1) as [w2 [E2 N2]]; [rewrite N1; apply in_or_app; right; cbn; auto|].
+      exists w2. split; auto. rewrite N2, N1, remove_first_app_last; auto.
+    - destruct (cr_spec n w Hni) as [w1 [E1 N1]]. exists w1. split; auto. rewrite N1. split.
+      + apply WInv_add; auto.
+      + intros x Hx. apply in_or_app. auto.
+  Qed.
+
+  Definition PInvW (s : pst) : Prop :=
+    WInv (names s) /\ (fixed s = true -> In "H1" (names s) /\ In "H2" (names s)).
+
+  Lemma finW : forall s w, WInv (w_names w) -> (forall x, In x (names s) -> In x (w_names w)) -> PInvW s ->
+    exists s' o, fin s (fixed s) (hl s) (al s) (Some w) = Next s' o /\ PInvW s'.
+  Proof.
+    intros s w Hi Hsub [_ Hf]. eexists. eexists. split; [reflexivity|]. split; cbn [names fixed]; auto.
+    intros F. destruct (Hf F). split; auto.
+  Qed.
+
+  (* finalize *)
+  Lemma wat_finalize_unfold : forall f fx w, wat_finalize (S f) fx w =
+      if fx then Some (w, fx)
+      else if has "H2" w then Some (w, fx)
+      else
+        let addname := if has "H1" w then "H2" else "H1" in
+        let isH1 := negb (has "H1" w) in
+        match wat_bonds w with
+        | 0 => cr addname w >>= wat_finalize f fx
+        | 1 => cr addname w >>= fun w1 =>
+                 (if isH1 then wat_finalize f fx w1 else Some (w1, fx)) >>= fun r => Some (fst r, true)
+        | 2 => cr addname w >>= fun w1 => if isH1 then wat_finalize f fx w1 else Some (w1, fx)
+        | 3 => cr addname w >>= fun w1 => Some (w1, fx)
+        | _ => Some (w, fx)
+        end.
+  Proof. reflexivity. Qed.
+
+  Lemma wat_fin_H2 : forall f w, has "H1" w = true -> has "H2" w = false ->
+    exists w1 fx, wat_finalize (S f) false w = Some (w1, fx) /\ w_names w1 = (w_names w ++ ["H2"])%list.
+  Proof.
+    intros f w E1 E2. destruct (cr_spec "H2" w) as [w1 [C1 N1]]; [apply has_false; auto|].
+    rewrite wat_finalize_unfold. rewrite E2, E1. cbn [negb].
+    unfold wat_bonds, count_present. cbn [filter]. rewrite E1, E2.
+    destruct (has "LP1" w), (has "LP2" w); cbn [List.length]; cbv zeta; rewrite C1; cbn [bind fst snd];
+      eexists; eexists; (split; [reflexivity|exact N1]).
+  Qed.
+
+  Lemma wat_fin_H1 : forall f w, has "H1" w = false -> has "H2" w = false ->
+    exists w2 fx, wat_finalize (S (S f)) false w = Some (w2, fx) /\ w_names w2 = ((w_names w ++ ["H1"]) ++ ["H2"])%list.
+  Proof.
+    intros f w E1 E2. destruct (cr_spec "H1" w) as [w1 [C1 N1]]; [apply has_false; auto|].
+    assert (H1' : has "H1" w1 = true) by (apply has_In; rewrite N1; apply in_or_app; right; cbn; auto).
+    assert (H2' : has "H2" w1 = false).
+    { apply has_false. rewrite N1. intros H. apply in_app_or in H. destruct H as [H|[H|[]]]; [|discriminate].
+      apply has_false in E2. auto. }
+    destruct (wat_fin_H2 f w1 H1' H2') as [w2 [fx [F2 N2]]].
+    rewrite wat_finalize_unfold. rewrite E2, E1. cbn [negb].
+    unfold wat_bonds, count_present. cbn [filter]. rewrite E1, E2.
+    destruct (has "LP1" w), (has "LP2" w); cbn [List.length]; cbv zeta; rewrite C1; cbn [bind];
+      rewrite F2; cbn [bind fst snd];
+      eexists; eexists; (split; [reflexivity|rewrite N2, N1; reflexivity]).
+  Qed.
+
+  Lemma wat_finalize_spec : forall w fx, WInv (w_names w) -> (fx = true -> In "H1" (w_names w) /\ In "H2" (w_names w)) ->
+    exists w' fx', wat_finalize 4 fx w = Some (w', fx') /\ WInv (w_names w') /\
+                   In "H1" (w_names w') /\ In "H2" (w_names w') /\ (forall x, In x (w_names w) -> In x (w_names w')).
+  Proof.
+    intros w fx Hi Hf. destruct fx.
+    - destruct (Hf eq_refl). exists w, true. split; [reflexivity|]. auto 6.
+    - destruct (has "H2" w) eqn:E2.
+      + exists w, false. change 4 with (S 3). rewrite wat_finalize_unfold. rewrite E2. apply has_In in E2.
+        destruct Hi as [? [? [? H21]]]. repeat split; auto.
+      + destruct (has "H1" w) eqn:E1.
+        * destruct (wat_fin_H2 3 w E1 E2) as [w1 [fx [F N]]]. exists w1, fx. split; auto. rewrite N.
+          apply has_In in E1. apply has_false in E2.
+          split; [apply WInv_add; auto; right; left; auto|].
+          split; [apply in_or_app; auto|]. split; [apply in_or_app; right; cbn; auto|].
+          intros x Hx. apply in_or_app. auto.
+        * destruct (wat_fin_H1 2 w E1 E2) as [w2 [fx [F N]]]. exists w2, fx. split; auto. rewrite N.
+          apply has_false in E1. apply has_false in E2.
+          assert (WInv (w_names w ++ ["H1"])%list) as I1.
+          { apply WInv_add; auto. left; auto. intros; discriminate. }
+          split.
+          { apply WInv_add; auto.
+            - intros H. apply in_app_or in H. destruct H as [H|[H|[]]]; [auto|discriminate].
+            - right; left; auto.
+            - intros _. apply in_or_app. right. cbn. auto. }
+          split; [apply in_or_app; left; apply in_or_app; right; cbn; auto|].
+          split; [apply in_or_app; right; cbn; auto|].
+          intros x Hx. apply in_or_app. left. apply in_or_app. auto.
+  Qed.
+
+  Lemma wat_step_inv : forall s l, PInvW s -> exists s' o, wat_step s l = Next s' o /\ PInvW s'.
+  Proof.
+    intros s l Hp. pose proof Hp as [Hi Hf]. destruct l as [t|t|]; cbn [wat_step].
+    - unfold wat_try_donor, wat_hname. destruct (has "H2" (start s)) eqn:E2; [apply finW; auto|].
+      destruct (has "H1" (start s)) eqn:E1.
+      + destruct (le3 _); [|apply finW; auto].
+        destruct (try_create_invW t "H2" (start s)) as [w' [E' [I' S']]]; auto.
+        { apply has_false; auto. } { right; left; auto. } { intros _. apply has_In in E1. auto. }
+        rewrite E'. apply finW; auto.
+      + destruct (le3 _); [|apply finW; auto].
+        destruct (try_create_invW t "H1" (start s)) as [w' [E' [I' S']]]; auto.
+        { apply has_false; auto. } { left; auto. } { intros; discriminate. }
+        rewrite E'. apply finW; auto.
+    - unfold wat_try_acceptor, lp_name. destruct (has "LP2" (start s)) eqn:E2; [apply finW; auto|].
+      destruct (has "LP1" (start s)) eqn:E1.
+      + destruct (le3 _); [|apply finW; auto].
+        destruct (try_create_invW t "LP2" (start s)) as [w' [E' [I' S']]]; auto.
+        { apply has_false; auto. } { right; right; right; auto. } { intros; discriminate. }
+        rewrite E'. apply finW; auto.
+      + destruct (le3 _); [|apply finW; auto].
+        destruct (try_create_invW t "LP1" (start s)) as [w' [E' [I' S']]]; auto.
+        { apply has_false; auto. } { right; right; left; auto. } { intros; discriminate. }
+        rewrite E'. apply finW; auto.
+    - destruct (wat_finalize_spec (start s) (fixed s)) as [w' [fx' [E' [I' [H1 [H2 S']]]]]]; auto.
+      rewrite E'. cbn [fin2]. eexists. eexists. split; [reflexivity|]. split; cbn [names fixed]; auto.
+  Qed.
+
+  Lemma wat_run_inv : forall ls s, PInvW s -> exists s' o, run _ wat_step s ls = Next s' o /\ PInvW s'.
+  Proof.
+    induction ls as [|l ls IH]; intros s Hs; cbn [run].
+    - eexists. eexists. split; [reflexivity|auto].
+    - destruct (wat_step_inv s l Hs) as [s1 [o1 [E1 I1]]]. rewrite E1. apply IH. auto.
+  Qed.
+
+  Lemma isLP_placeholder' : forall x, isLP x = true -> placeholder x = true.
+  Proof. intros x H. unfold placeholder. rewrite H. destruct (isF x); reflexivity. Qed.
+
+  Lemma wat_complete_ok : forall s, PInvW s ->
+    exists s' o, wat_complete s tt = Next s' o /\ final_ok (wat_expected base) (names s').
+  Proof.
+    intros s [Hi Hf]. destruct wf_wat_parts as [Hn [Hp H21]].
+    unfold wat_complete.
+    destruct (wat_finalize_spec (start s) (fixed s)) as [w1 [fx1 [E1 [I1 [HH1 [HH2 S1]]]]]]; auto.
+    rewrite E1. cbn [bind fst snd]. destruct I1 as [Nd1 [Hb1 [Hs1 _]]].
+    destruct (rm_pred_spec isLP (w_names w1) w1) as [w2 [E2 [Nd2 S2]]]; auto.
+    unfold remove_lps. unfold rm_pred in E2. rewrite E2. cbn [bind fin2].
+    eexists. eexists. split; [reflexivity|]. cbn [names].
+    assert (HLP1 : isLP "LP1" = true) by reflexivity. assert (HLP2 : isLP "LP2" = true) by reflexivity.
+    assert (HnH1 : isLP "H1" = false) by reflexivity. assert (HnH2 : isLP "H2" = false) by reflexivity.
+    assert (Hexp : forall x, In x (wat_expected base) <-> In x base \/ x = "H1" \/ x = "H2").
+    { intros x. unfold wat_expected. rewrite !in_app_iff. split.
+      - intros [H|[H|H]]; auto.
+        + destruct (mem "H1" base); cbn in H; [tauto|]. destruct H as [<-|[]]; auto.
+        + destruct (mem "H2" base); cbn in H; [tauto|]. destruct H as [<-|[]]; auto.
+      - intros [H|[->| ->]]; auto.
+        + destruct (mem "H1" base) eqn:E; [left; apply mem_In; auto|right; left; cbn; auto].
+        + destruct (mem "H2" base) eqn:E; [left; apply mem_In; auto|right; right; cbn; auto]. }
+    split; [auto|]. split.
+    - intros x. rewrite S2, Hexp. split.
+      + intros [Hx Hnp]. destruct (Hs1 x Hx) as [Hb|[->|[->|[->| ->]]]]; auto; exfalso; apply Hnp; auto.
+      + intros [Hx|[->| ->]].
+        * split; auto. intros [Hl _]. apply isLP_placeholder' in Hl. rewrite Hp in Hl; auto. discriminate.
+        * split; auto. intros [Hl _]. congruence.
+        * split; auto. intros [Hl _]. congruence.
+    - intros x Hx. apply S2 in Hx. destruct Hx as [Hx Hnp].
+      destruct (Hs1 x Hx) as [Hb|[->|[->|[->| ->]]]]; auto; exfalso; apply Hnp; auto.
+  Qed.
+
+  Theorem wat_names_param : proto_ok _ _ wat_step wat_complete (wat_expected base) (wat_start base).
+  Proof.
+    destruct wf_wat_parts as [Hn [Hp H21]].
+    unfold wat_start. cbn [proto_ok]. intros ls.
+    assert (I0 : PInvW (mkP base false [] [])).
+    { split; cbn [names fixed]; [|discriminate]. unfold WInv. split; [auto|]. split; [auto|]. split; [auto|exact H21]. }
+    destruct (wat_run_inv ls _ I0) as [s [o [E I]]]. rewrite E. intros [].
+    destruct (wat_complete_ok s I) as [s' [o' [E' F']]]. rewrite E'. exact F'.
+  Qed.
+End WatParam.
+
+(* ---- Flip: string facts and the three loops ------------------------------- *)
+
+Lemma isF_app : forall m, isF (m ++ FLIPs) = true.
+Proof.
+  intros m. unfold isF, ends_with, slen. rewrite length_app. cbn [String.length FLIPs].
+  replace (String.length m + 4 - 4) with (String.length m) by lia.
+  rewrite drop_app_exact. rewrite String.eqb_refl. rewrite andb_true_r. apply Nat.leb_le. lia.
+Qed.
+
+Lemma unF_app : forall m, unF (m ++ FLIPs) = m.
+Proof.
+  intros m. unfold unF, chop, slen. rewrite length_app. cbn [String.length FLIPs].
+  replace (String.length m + 4 - 4) with (String.length m) by lia. apply take_app_exact.
+Qed.
+
+Definition fix1 (todo : nl) (w : W) : option W :=
+  fold_left (fun acc a => acc >>= fun w' =>
+     if isF a then (if has (unF a) w' then rm (unF a) w' else Some w') else Some w') todo (Some w).
+
+Lemma fix1_spec : forall todo w, NoDup (w_names w) ->
+  exists w', fix1 todo w = Some w' /\ NoDup (w_names w') /\
+    forall y, In y (w_names w') <-> In y (w_names w) /\ ~ (exists a, In a todo /\ isF a = true /\ unF a = y).
+Proof.
+  unfold fix1. induction todo as [|a r IH]; intros w Hn.
+  - exists w. cbn. split; auto. split; auto. intros y. split; [intros H; split; auto; intros [a [[] _]]|tauto].
+  - cbn [fold_left bind]. destruct (isF a) eqn:Ef.
+    + destruct (has (unF a) w) eqn:Eh.
+      * destruct (rm_spec (unF a) w) as [w1 [E1 N1]]; [apply has_In; auto|]. rewrite E1.
+        destruct (IH w1) as [w' [E' [Nd' S']]]; [rewrite N1; apply NoDup_remove_first; auto|].
+        exists w'. split; auto. split; auto. intros y. rewrite S', N1, In_remove_first by auto. split.
+        -- intros [[Hy Hne] Hnp]. split; auto. intros [b [[<-|Hb] [Hfb Hub]]]; [congruence|].
+           apply Hnp. exists b. auto.
+        -- intros [Hy Hnp]. split; [split; auto|].
+           ++ intros ->. apply Hnp. exists a. cbn. auto.
+           ++ intros [b [Hb [Hfb Hub]]]. apply Hnp. exists b. cbn. auto.
+      * destruct (IH w) as [w' [E' [Nd' S']]]; auto.
+        exists w'. split; auto. split; auto. intros y. rewrite S'. apply has_false in Eh. split.
+        -- intros [Hy Hnp]. split; auto. intros [b [[<-|Hb] [Hfb Hub]]]; [congruence|].
+           apply Hnp. exists b. auto.
+        -- intros [Hy Hnp]. split; auto. intros [b [Hb [Hfb Hub]]]. apply Hnp. exists b. cbn. auto.
+    + destruct (IH w) as [w' [E' [Nd' S']]]; auto.
+      exists w'. split; auto. split; auto. intros y. rewrite S'. split.
+      -- intros [Hy Hnp]. split; auto. intros [b [[<-|Hb] [Hfb Hub]]]; [congruence|].
+         apply Hnp. exists b. auto.
+      -- intros [Hy Hnp]. split; auto. intros [b [Hb [Hfb Hub]]]. apply Hnp. exists b. cbn. auto.
+Qed.
+
+Definition fbody (todo : nl) (w : W) : option W :=
+  fold_left (fun acc a => acc >>= fun w' =>
+     if isF a then rm (unF a) w' >>= rn a (unF a) else Some w') todo (Some w).
+
+Definition unF_inj (todo : nl) : Prop :=
+  forall a b, In a todo -> In b todo -> isF a = true -> isF b = true -> unF a = unF b -> a = b.
+
+Lemma fbody_spec : forall todo w, NoDup (w_names w) -> NoDup todo -> unF_inj todo ->
+  (forall a, In a todo -> isF a = true -> In a (w_names w) /\ In (unF a) (w_names w) /\ isF (unF a) = false) ->
+  exists w', fbody todo w = Some w' /\ NoDup (w_names w') /\
+    forall y, In y (w_names w') <-> In y (w_names w) /\ ~ (isF y = true /\ In y todo).
+Proof.
+  unfold fbody. induction todo as [|a r IH]; intros w Hn Hnt Hinj Hpre.
+  - exists w. cbn. split; auto. split; auto. intros y. tauto.
+  - inversion Hnt as [|? ? Ha Hr]; subst. cbn [fold_left bind].
+    assert (Hinj' : unF_inj r) by (intros x y Hx Hy; apply Hinj; cbn; auto).
+    destruct (isF a) eqn:Ef.
+    + destruct (Hpre a) as [Ha1 [Ha2 Ha3]]; cbn; auto.
+      assert (Hne : a <> unF a) by (intros E; rewrite <- E in Ha3; congruence).
+      destruct (rm_spec (unF a) w Ha2) as [w1 [E1 N1]]. rewrite E1. cbn [bind].
+      assert (Hn1 : NoDup (w_names w1)) by (rewrite N1; apply NoDup_remove_first; auto).
+      destruct (rn_spec a (unF a) w1) as [w2 [E2 N2]].
+      { rewrite N1. apply In_remove_first; auto. }
+      { rewrite N1. rewrite In_remove_first by auto. tauto. }
+      rewrite E2.
+      assert (Hn2 : NoDup (w_names w2)).
+      { rewrite N2. apply NoDup_replace_first; auto. rewrite N1. rewrite In_remove_first by auto. tauto. }
+      assert (Hin1 : In a (w_names w1)) by (rewrite N1; apply In_remove_first; auto).
+      assert (S2 : forall y, In y (w_names w2) <-> In y (w_names w) /\ y <> a).
+      { intros y. rewrite N2, In_replace_first by auto. rewrite N1, In_remove_first by auto. split.
+        - intros [[[Hy H1] H2]| ->]; auto.
+        - intros [Hy Hya]. destruct (string_dec y (unF a)) as [->|Hd]; auto. }
+      destruct (IH w2) as [w' [E' [Nd' S']]]; auto.
+      * intros b Hb Hfb. destruct (Hpre b) as [Hb1 [Hb2 Hb3]]; cbn; auto.
+        split; [|split; auto].
+        -- apply S2. split; auto. intros ->. contradiction.
+        -- apply S2. split; auto. intros E. rewrite E in Hb3. congruence.
+      * exists w'. split; auto. split; auto. intros y. rewrite S', S2. cbn. split.
+        -- intros [[Hy Hne'] Hnp]. split; auto. intros [Hfy [<-|Hyr]]; [congruence|tauto].
+        -- intros [Hy Hnp]. split; [split; auto|].
+           ++ intros ->. apply Hnp. auto.
+           ++ intros [Hfy Hyr]. apply Hnp. auto.
+    + destruct (IH w) as [w' [E' [Nd' S']]]; auto.
+      * intros b Hb Hfb. apply Hpre; cbn; auto.
+      * exists w'. split; auto. split; auto. intros y. rewrite S'. cbn. split.
+        -- intros [Hy Hnp]. split; auto. intros [Hfy [<-|Hyr]]; [congruence|tauto].
+        -- intros [Hy Hnp]. split; auto. intros [Hfy Hyr]. apply Hnp. auto.
+Qed.
+
+Definition rrest (todo : nl) (w : W) : option W :=
+  fold_left (fun acc a => acc >>= fun w' => if isF a then rn a (unF a) w' else Some w') todo (Some w).
+
+Lemma rrest_spec : forall todo w, NoDup (w_names w) -> NoDup todo -> unF_inj todo ->
+  (forall a, In a todo -> isF a = true -> In a (w_names w) /\ ~ In (unF a) (w_names w) /\ isF (unF a) = false) ->
+  exists w', rrest todo w = Some w' /\ NoDup (w_names w') /\
+    forall y, In y (w_names w') <-> (In y (w_names w) /\ ~ (isF y = true /\ In y todo)) \/
+                                    (exists a, In a todo /\ isF a = true /\ y = unF a).
+Proof.
+  unfold rrest. induction todo as [|a r IH]; intros w Hn Hnt Hinj Hpre.
+  - exists w. cbn. split; auto. split; auto. intros y. split; [tauto|]. intros [H|[a [[] _]]]. tauto.
+  - inversion Hnt as [|? ? Ha Hr]; subst. cbn [fold_left bind].
+    assert (Hinj' : unF_inj r) by (intros x y Hx Hy; apply Hinj; cbn; auto).
+    destruct (isF a) eqn:Ef.
+    + destruct (Hpre a) as [Ha1 [Ha2 Ha3]]; cbn; auto.
+      destruct (rn_spec a (unF a) w Ha1 Ha2) as [w2 [E2 N2]]. rewrite E2.
+      assert (Hn2 : NoDup (w_names w2)) by (rewrite N2; apply NoDup_replace_first; auto).
+      assert (S2 : forall y, In y (w_names w2) <-> (In y (w_names w) /\ y <> a) \/ y = unF a).
+      { intros y. rewrite N2. apply In_replace_first; auto. }
+      destruct (IH w2) as [w' [E' [Nd' S']]]; auto.
+      * intros b Hb Hfb. destruct (Hpre b) as [Hb1 [Hb2 Hb3]]; cbn; auto.
+        split; [|split; auto].
+        -- apply S2. left. split; auto. intros ->. contradiction.
+        -- rewrite S2. intros [[H1 H2]|H3]; [tauto|].
+           assert (b = a) by (apply Hinj; cbn; auto). subst. contradiction.
+      * exists w'. split; auto. split; auto. intros y. rewrite S', S2. cbn. split.
+        -- intros [[[[Hy Hne]| ->] Hnp]|[b [Hb [Hfb ->]]]].
+           ++ left. split; auto. intros [Hfy [<-|Hyr]]; [congruence|tauto].
+           ++ right. exists a. auto.
+           ++ right. exists b. auto.
+        -- intros [[Hy Hnp]|[b [[<-|Hb] [Hfb ->]]]].
+           ++ left. split.
+              ** left. split; auto. intros ->. apply Hnp. auto.
+              ** intros [Hfy Hyr]. apply Hnp. auto.
+           ++ left. split; [right; auto|]. intros [Hfy _]. congruence.
+           ++ right. exists b. auto.
+    + destruct (IH w) as [w' [E' [Nd' S']]]; auto.
+      * intros b Hb Hfb. apply Hpre; cbn; auto.
+      * exists w'. split; auto. split; auto. intros y. rewrite S'. cbn. split.
+        -- intros [[Hy Hnp]|[b [Hb [Hfb ->]]]].
+           ++ left. split; auto. intros [Hfy [<-|Hyr]]; [congruence|tauto].
+           ++ right. exists b. auto.
+        -- intros [[Hy Hnp]|[b [[<-|Hb] [Hfb ->]]]].
+           ++ left. split; auto. intros [Hfy Hyr]. apply Hnp. auto.
+           ++ congruence.
+           ++ right. exists b. auto.
+Qed.
+
+(* ---- Flip, for arbitrary residues ------------------------------------------ *)
+
+
+Section FlipParam.
+  Variables (base mv : nl).
+  Hypothesis Hwf : wf_flip base mv = true.
+
+  Definition Fl (m : string) : string := (m ++ FLIPs)%string.
+
+  Lemma wf_flip_parts : NoDup base /\ NoDup mv /\ (forall m, In m mv -> In m base) /\
+                        (forall x, In x base -> placeholder x = false).
+  Proof.
+    pose proof Hwf as W. unfold wf_flip in W. apply andb_true_iff in W. destruct W as [W W4].
+    apply andb_true_iff in W. destruct W as [W W3]. apply andb_true_iff in W. destruct W as [W1 W2].
+    split; [apply nodupb_NoDup; auto|]. split; [apply nodupb_NoDup; auto|]. split.
+    - intros m Hm. rewrite forallb_forall in W3. apply mem_In. auto.
+    - intros x Hx. rewrite forallb_forall in W4. specialize (W4 x Hx). destruct (placeholder x); auto; discriminate.
+  Qed.
+
+  Lemma base_notF : forall x, In x base -> isF x = false.
+  Proof.
+    intros x Hx. destruct wf_flip_parts as [_ [_ [_ Hp]]]. specialize (Hp x Hx).
+    unfold placeholder in Hp. destruct (isF x); auto.
+  Qed.
+
+  Lemma mv_notF : forall m, In m mv -> isF m = false.
+  Proof. intros m Hm. apply base_notF. destruct wf_flip_parts as [_ [_ [H _]]]. auto. Qed.
+
+  Lemma Fl_inj : forall a b, Fl a = Fl b -> a = b.
+  Proof. intros a b H. apply (f_equal unF) in H. unfold Fl in H. rewrite !unF_app in H. auto. Qed.
+
+  Definition Frame (l : nl) : Prop :=
+    NoDup l /\ (forall x, In x l -> In x base \/ exists m, In m mv /\ x = Fl m) /\
+    (forall b, In b base -> ~ In b mv -> In b l).
+  Definition Both (l : nl) := forall m, In m mv -> In m l /\ In (Fl m) l.
+  Definition Orig (l : nl) := forall m, In m mv -> In m l /\ ~ In (Fl m) l.
+  Definition FlipO (l : nl) := forall m, In m mv -> ~ In m l /\ In (Fl m) l.
+  Definition FInv (s : pst) : Prop :=
+    Frame (names s) /\ ((fixed s = false /\ Both (names s)) \/
+                        (fixed s = true /\ (Orig (names s) \/ FlipO (names s)))).
+
+  Lemma F_char : forall l x, Frame l -> In x l -> (isF x = true <-> exists m, In m mv /\ x = Fl m).
+  Proof.
+    intros l x [_ [He _]] Hx. split.
+    - intros Hf. destruct (He x Hx) as [Hb|Hm]; auto. apply base_notF in Hb. congruence.
+    - intros [m [_ ->]]. apply isF_app.
+  Qed.
+
+  Lemma notF_base : forall l x, Frame l -> In x l -> isF x = false -> In x base.
+  Proof.
+    intros l x [_ [He _]] Hx Hf. destruct (He x Hx) as [Hb|[m [_ ->]]]; auto.
+    unfold Fl in Hf. rewrite isF_app in Hf. discriminate.
+  Qed.
+
+  Lemma inj_l : forall l, Frame l -> unF_inj l.
+  Proof.
+    intros l Hfr a b Ha Hb Hfa Hfb E.
+    apply (F_char l a Hfr Ha) in Hfa. apply (F_char l b Hfr Hb) in Hfb.
+    destruct Hfa as [m [_ ->]]. destruct Hfb as [m' [_ ->]]. unfold Fl in E. rewrite !unF_app in E. subst. auto.
+  Qed.
+
+  Lemma init_spec : forall ms w, NoDup ms -> NoDup (w_names w) -> (forall m, In m ms -> ~ In (Fl m) (w_names w)) ->
+    exists w', flip_init ms w = Some w' /\ w_names w' = (w_names w ++ map Fl ms)%list /\ NoDup (w_names w').
+  Proof.
+    unfold flip_init. induction ms as [|m r IH]; intros w Hnm Hn Hfresh.
+    - exists w. cbn. rewrite app_nil_r. auto.
+    - inversion Hnm as [|? ? Hm Hr]; subst. cbn [fold_left bind].
+      destruct (cr_spec (m ++ FLIPs)%string w) as [w1 [E1 N1]]; [apply (Hfresh m); cbn; auto|]. rewrite E1.
+      destruct (IH w1) as [w' [E' [N' Nd']]]; auto.
+      + rewrite N1. apply NoDup_app_last; auto. apply (Hfresh m). cbn; auto.
+      + intros m' Hm' Hin. rewrite N1 in Hin. apply in_app_or in Hin. destruct Hin as [Hin|[E|[]]].
+        * apply (Hfresh m'); cbn; auto.
+        * apply Fl_inj in E. subst. contradiction.
+      + exists w'. split; auto. split; auto. rewrite N', N1. rewrite <- app_assoc. reflexivity.
+  Qed.
+
+  Lemma flip_start_inv : exists s0 o, flip_start base mv = Next s0 o /\ FInv s0.
+  Proof.
+    destruct wf_flip_parts as [Hnb [Hnm [Hsub Hp]]].
+    destruct (init_spec mv (mkW base [])) as [w' [E' [N' Nd']]]; auto.
+    { intros m Hm Hin. cbn in Hin. apply base_notF in Hin. unfold Fl in Hin. rewrite isF_app in Hin. discriminate. }
+    unfold flip_start. rewrite E'. cbn [fin]. eexists. eexists. split; [reflexivity|].
+    cbn [w_names] in N'. split; cbn [names fixed].
+    - split; [auto|]. split.
+      + intros x Hx. rewrite N' in Hx. apply in_app_or in Hx. destruct Hx as [Hx|Hx]; auto.
+        apply in_map_iff in Hx. destruct Hx as [m [<- Hm]]. right. exists m. auto.
+      + intros b Hb _. rewrite N'. apply in_or_app. auto.
+    - left. split; auto. intros m Hm. rewrite N'. split; apply in_or_app; [left; auto|right; apply in_map; auto].
+  Qed.
+
+  (* the two ways a fixed residue is reached, from the set characterisation *)
+  Lemma orig_from_nonF : forall l l', Frame l -> (forall m, In m mv -> In m l) -> NoDup l' ->
+    (forall y, In y l' <-> In y l /\ isF y = false) -> Frame l' /\ Orig l'.
+  Proof.
+    intros l l' Hfr Hm Hn Hs. pose proof Hfr as [_ [He Hb]]. split.
+    - split; auto. split.
+      + intros x Hx. apply Hs in Hx. apply He. tauto.
+      + intros b Hb1 Hb2. apply Hs. split; auto. apply base_notF; auto.
+    - intros m Hmm. split.
+      + apply Hs. split; auto. apply mv_notF; auto.
+      + intros Hin. apply Hs in Hin. destruct Hin as [_ Hf]. unfold Fl in Hf. rewrite isF_app in Hf. discriminate.
+  Qed.
+
+  Lemma nonF_iff : forall (l : nl) y, (In y l /\ ~ (isF y = true /\ In y l)) <-> (In y l /\ isF y = false).
+  Proof.
+    intros l y. split.
+    - intros [Hy Hn]. split; auto. destruct (isF y); auto. exfalso. auto.
+    - intros [Hy Hf]. split; auto. intros [Ht _]. congruence.
+  Qed.
+
+  Lemma bn_in_mv : forall bn, mem bn (flip_cands mv) = true -> isF bn = false -> In bn mv.
+  Proof.
+    intros bn Hc Hf. apply mem_In in Hc. unfold flip_cands in Hc. apply in_app_or in Hc.
+    destruct Hc as [H|H]; auto. apply in_map_iff in H. destruct H as [m [<- _]]. rewrite isF_app in Hf. discriminate.
+  Qed.
+
+  Lemma flip_step_inv : forall s l, FInv s ->
+    flip_step mv s l = Disabled \/ exists s' o, flip_step mv s l = Next s' o /\ FInv s'.
+  Proof.
+    intros s l [Hfr Hmode]. pose proof Hfr as [Hnd [He Hbm]].
+    assert (Hs : w_names (start s) = names s) by reflexivity.
+    destruct l as [bn|]; unfold flip_step.
+    - destruct (mem bn (flip_cands mv)) eqn:Ec; [|left; reflexivity].
+      destruct (mem bn (names s)) eqn:El; [|left; reflexivity]. cbn [negb orb]. right.
+      apply mem_In in El. destruct (isF bn) eqn:Eb.
+      + (* a FLIP copy made the bond: the originals go *)
+        change (fix_flip true (start s)) with (fix1 (names s) (start s)).
+        destruct (fix1_spec (names s) (start s)) as [w' [E' [Nd' S']]]; auto. rewrite E'. cbn [fin].
+        eexists. eexists. split; [reflexivity|]. cbn [w_names] in S'.
+        assert (HFl : forall m, In m mv -> In (Fl m) (names s) -> In (Fl m) (w_names w')).
+        { intros m Hm Hin. apply S'. split; auto. intros [a [Ha [Hfa Hua]]].
+          apply (F_char _ a Hfr Ha) in Hfa. destruct Hfa as [m2 [Hm2 ->]]. unfold Fl in Hua at 1. rewrite unF_app in Hua.
+          apply mv_notF in Hm2. rewrite Hua in Hm2. unfold Fl in Hm2. rewrite isF_app in Hm2. discriminate. }
+        assert (Hgone : forall m, In m mv -> In (Fl m) (names s) -> ~ In m (w_names w')).
+        { intros m Hm Hin Hin'. apply S' in Hin'. destruct Hin' as [_ Hn]. apply Hn. exists (Fl m).
+          split; auto. split; [apply isF_app|apply unF_app]. }
+        split; cbn [names fixed].
+        * split; auto. split.
+          -- intros x Hx. apply S' in Hx. apply He. tauto.
+          -- intros b Hb1 Hb2. apply S'. split; auto. intros [a [Ha [Hfa Hua]]].
+             apply (F_char _ a Hfr Ha) in Hfa. destruct Hfa as [m2 [Hm2 ->]]. unfold Fl in Hua. rewrite unF_app in Hua. subst. contradiction.
+        * right. split; auto. right. intros m Hm.
+          destruct Hmode as [[_ HB]|[_ [HO|HF]]].
+          -- destruct (HB m Hm) as [H1 H2]. split; [apply Hgone; auto|apply HFl; auto].
+          -- exfalso. apply (F_char _ bn Hfr El) in Eb. destruct Eb as [m2 [Hm2 ->]]. destruct (HO m2 Hm2). contradiction.
+          -- destruct (HF m Hm) as [H1 H2]. split; [intros Hin; apply S' in Hin; tauto|apply HFl; auto].
+      + (* an original atom made the bond: the FLIP copies go *)
+        change (fix_flip false (start s)) with (rm_pred isF (names s) (start s)).
+        destruct (rm_pred_spec isF (names s) (start s)) as [w' [E' [Nd' S']]]; auto. rewrite E'. cbn [fin].
+        eexists. eexists. split; [reflexivity|]. cbn [w_names] in S'.
+        assert (Hall : forall m, In m mv -> In m (names s)).
+        { intros m Hm. destruct Hmode as [[_ HB]|[_ [HO|HF]]].
+          - apply HB; auto. - apply HO; auto.
+          - exfalso. apply bn_in_mv in Ec; auto. destruct (HF bn Ec). contradiction. }
+        destruct (orig_from_nonF (names s) (w_names w') Hfr Hall Nd') as [Hfr' HO'].
+        { intros y. rewrite S'. apply nonF_iff. }
+        split; cbn [names fixed]; auto.
+    - right. destruct (fixed s) eqn:Ef.
+      + eexists. eexists. split; [reflexivity|]. split; auto. rewrite Ef. exact Hmode.
+      + destruct Hmode as [[_ HB]|[Hc _]]; [|congruence].
+        change (flip_finalize_body (start s)) with (fbody (names s) (start s)).
+        destruct (fbody_spec (names s) (start s)) as [w' [E' [Nd' S']]]; auto.
+        { apply inj_l; auto. }
+        { intros a Ha Hfa. apply (F_char _ a Hfr Ha) in Hfa. destruct Hfa as [m [Hm ->]].
+          unfold Fl at 2 3. rewrite unF_app. destruct (HB m Hm). split; auto. split; auto. apply mv_notF; auto. }
+        rewrite E'. cbn [fin]. eexists. eexists. split; [reflexivity|]. cbn [w_names] in S'.
+        destruct (orig_from_nonF (names s) (w_names w') Hfr (fun m Hm => proj1 (HB m Hm)) Nd') as [Hfr' HO'].
+        { intros y. rewrite S'. apply nonF_iff. }
+        split; cbn [names fixed]; auto.
+  Qed.
+
+  Lemma flip_run_inv : forall ls s, FInv s ->
+    match run _ (flip_step mv) s ls with
+    | Next s' _ => FInv s'
+    | Disabled => True
+    | Error => False
+    end.
+  Proof.
+    induction ls as [|l ls IH]; intros s Hs; cbn [run]; auto.
+    destruct (flip_step_inv s l Hs) as [E|[s1 [o1 [E I1]]]]; rewrite E; auto. apply IH. auto.
+  Qed.
+
+  Lemma final_from_nonF : forall l l', Frame l -> (forall m, In m mv -> In m l) -> NoDup l' ->
+    (forall y, In y l' <-> In y l /\ isF y = false) -> final_ok base l'.
+  Proof.
+    intros l l' Hfr Hm Hn Hs. pose proof Hfr as [_ [He Hb]]. destruct wf_flip_parts as [_ [_ [Hsub Hp]]].
+    split; auto. split.
+    - intros y. rewrite Hs. split.
+      + intros [Hy Hf]. eapply notF_base; eauto.
+      + intros Hy. split; [|apply base_notF; auto].
+        destruct (in_dec string_dec y mv); auto.
+    - intros y Hy. apply Hs in Hy. apply Hp. destruct Hy. eapply notF_base; eauto.
+  Qed.
+
+  Lemma rrest_noF : forall l w, w_names w = l -> NoDup l -> (forall a, In a l -> isF a = false) ->
+    exists w', flip_rename_rest w = Some w' /\ NoDup (w_names w') /\ forall y, In y (w_names w') <-> In y l.
+  Proof.
+    intros l w Hw Hn Hno. subst l. change (flip_rename_rest w) with (rrest (w_names w) w).
+    destruct (rrest_spec (w_names w) w) as [w' [E' [Nd' S']]]; auto.
+    - intros a b Ha _ Hfa. rewrite Hno in Hfa; auto. discriminate.
+    - intros a Ha Hfa. rewrite Hno in Hfa; auto. discriminate.
+    - exists w'. split; auto. split; auto. intros y. rewrite S'. split.
+      + intros [[Hy _]|[a [Ha [Hfa _]]]]; auto. rewrite Hno in Hfa; auto. discriminate.
+      + intros Hy. left. split; auto. intros [Hf _]. rewrite Hno in Hf; auto. discriminate.
+  Qed.
+
+  Lemma flip_complete_ok : forall s, FInv s ->
+    exists s' o, flip_complete s tt = Next s' o /\ final_ok base (names s').
+  Proof.
+    intros s [Hfr Hmode]. pose proof Hfr as [Hnd [He Hbm]]. destruct wf_flip_parts as [_ [_ [Hsub Hp]]].
+    unfold flip_complete. destruct Hmode as [[Ef HB]|[Ef [HO|HF]]]; rewrite Ef.
+    - change (flip_finalize_body (start s)) with (fbody (names s) (start s)).
+      destruct (fbody_spec (names s) (start s)) as [w1 [E1 [Nd1 S1]]]; auto.
+      { apply inj_l; auto. }
+      { intros a Ha Hfa. apply (F_char _ a Hfr Ha) in Hfa. destruct Hfa as [m [Hm ->]].
+        unfold Fl at 2 3. rewrite unF_app. destruct (HB m Hm). split; auto. split; auto. apply mv_notF; auto. }
+      rewrite E1. cbn [bind]. cbn [w_names] in S1.
+      destruct (rrest_noF (w_names w1) (mkW (w_names w1) (w_log w1))) as [w2 [E2 [Nd2 S2]]]; auto.
+      { intros a Ha. apply S1 in Ha. destruct Ha as [Ha Hn]. destruct (isF a); auto. exfalso. auto. }
+      rewrite E2. cbn [fin]. eexists. eexists. split; [reflexivity|]. cbn [names].
+      apply (final_from_nonF (names s)); auto.
+      { intros m Hm. apply HB; auto. }
+      intros y. rewrite S2, S1. apply nonF_iff.
+    - cbn [bind].
+      assert (HnoF : forall a, In a (names s) -> isF a = false).
+      { intros a Ha. destruct (isF a) eqn:E; auto. apply (F_char _ a Hfr Ha) in E. destruct E as [m [Hm ->]].
+        destruct (HO m Hm). contradiction. }
+      destruct (rrest_noF (names s) (mkW (w_names (start s)) (w_log (start s)))) as [w2 [E2 [Nd2 S2]]]; auto.
+      rewrite E2. cbn [fin]. eexists. eexists. split; [reflexivity|]. cbn [names].
+      apply (final_from_nonF (names s)); auto.
+      { intros m Hm. apply HO; auto. }
+      intros y. rewrite S2. split; [intros Hy; split; auto|tauto].
+    - cbn [bind].
+      change (flip_rename_rest (mkW (w_names (start s)) (w_log (start s)))) with (rrest (names s) (mkW (names s) [])).
+      destruct (rrest_spec (names s) (mkW (names s) [])) as [w2 [E2 [Nd2 S2]]]; auto.
+      { apply inj_l; auto. }
+      { intros a Ha Hfa. cbn [w_names]. apply (F_char _ a Hfr Ha) in Hfa. destruct Hfa as [m [Hm ->]].
+        unfold Fl at 2 3. rewrite unF_app. destruct (HF m Hm). split; auto. split; auto. apply mv_notF; auto. }
+      rewrite E2. cbn [fin]. eexists. eexists. split; [reflexivity|]. cbn [names]. cbn [w_names] in S2.
+      split; auto. split.
+      + intros y. rewrite S2. split.
+        * intros [[Hy Hn]|[a [Ha [Hfa ->]]]].
+          -- eapply notF_base; eauto. destruct (isF y); auto. exfalso. auto.
+          -- apply (F_char _ a Hfr Ha) in Hfa. destruct Hfa as [m [Hm ->]]. unfold Fl. rewrite unF_app. auto.
+        * intros Hy. destruct (in_dec string_dec y mv) as [Hm|Hm].
+          -- right. exists (Fl y). destruct (HF y Hm). split; auto. split; [apply isF_app|symmetry; apply unF_app].
+          -- left. split; auto. intros [Hf _]. rewrite base_notF in Hf; auto. discriminate.
+      + intros y Hy. apply S2 in Hy. apply Hp. destruct Hy as [[Hy Hn]|[a [Ha [Hfa ->]]]].
+        * eapply notF_base; eauto. destruct (isF y); auto. exfalso. auto.
+        * apply (F_char _ a Hfr Ha) in Hfa. destruct Hfa as [m [Hm ->]]. unfold Fl. rewrite unF_app. auto.
+  Qed.
+
+  Theorem flip_names_param : proto_ok _ _ (flip_step mv) flip_complete base (flip_start base mv).
+  Proof.
+    destruct flip_start_inv as [s0 [o0 [E0 I0]]]. rewrite E0. cbn [proto_ok]. intros ls.
+    pose proof (flip_run_inv ls s0 I0) as Hr. destruct (run _ (flip_step mv) s0 ls) as [s o| |]; auto.
+    intros []. destruct (flip_complete_ok s Hr) as [s' [o' [E' F']]]. rewrite E'. exact F'.
+  Qed.
+End FlipParam.
+
+(* ======================================================================
+   Layer 2 (guarded name lists) = layer 1 (object list + dict) while the guards hold
+   ====================================================================== *)
+
+Definition WFres (s : NameProtocol.res) : Prop :=
+  NoDup (map fst (r_atoms s)) /\
+  (forall n i, r_map s n = Some i <-> In (i, n) (r_atoms s)) /\
+  (forall i n, In (i, n) (r_atoms s) -> i < r_fresh s).
+
+Lemma nodup_snd : forall (l : list (nat * string)), NoDup (map fst l) ->
+  (forall i j n, In (i, n) l -> In (j, n) l -> i = j) -> NoDup (map snd l).
+Proof.
+  induction l as [|[i n] l IH]; cbn; intros Hn Hf; constructor.
+  - intros Hin. apply in_map_iff in Hin. destruct Hin as [[j m] [E Hj]]. cbn in E. subst m.
+    assert (i = j) by (apply (Hf i j n); auto). subst j.
+    inversion Hn; subst. apply H1. apply in_map_iff. exists (i, n). auto.
+  - inversion Hn; subst. apply IH; auto. intros a b m Ha Hb. apply (Hf a b m); auto.
+Qed.
+
+Lemma WFres_names_nodup : forall s, WFres s -> NoDup (res_names s).
+Proof.
+  intros s [Hn [Hm _]]. apply nodup_snd; auto. intros i j n Hi Hj.
+  apply Hm in Hi. apply Hm in Hj. congruence.
+Qed.
+
+Lemma WFres_has : forall s n, WFres s -> (res_has n s = true <-> In n (res_names s)).
+Proof.
+  intros s n [_ [Hm _]]. unfold res_has, res_names. split.
+  - destruct (r_map s n) as [i|] eqn:E; [|discriminate]. intros _. apply Hm in E.
+    apply in_map_iff. exists (i, n). auto.
+  - intros Hin. apply in_map_iff in Hin. destruct Hin as [[i m] [E Hi]]. cbn in E. subst m.
+    apply Hm in Hi. rewrite Hi. reflexivity.
+Qed.
+
+Lemma WFres_empty : WFres res_empty.
+Proof.
+  split; [constructor|]. split.
+  - intros n i. cbn. split; [discriminate|tauto].
+  - intros i n [].
+Qed.
+
+Lemma NoDup_app_last_nat : forall (l : list nat) x, NoDup l -> ~ In x l -> NoDup (l ++ [x]).
+Proof.
+  intros l x Hn Hx. apply Permutation.Permutation_NoDup with (l := x :: l).
+  - apply Permutation.Permutation_cons_append.
+  - constructor; auto.
+Qed.
+
+Lemma create_ok : forall s n, WFres s -> ~ In n (res_names s) ->
+  WFres (res_create n s) /\ res_names (res_create n s) = (res_names s ++ [n])%list.
+Proof.
+  intros s n [Hn [Hm Hf]] Hni. split; [|unfold res_names, res_create; cbn; rewrite map_app; reflexivity].
+  split; [|split]; cbn [res_create r_atoms r_map r_fresh].
+  - rewrite map_app. cbn. apply NoDup_app_last_nat; auto.
+    intros Hin. apply in_map_iff in Hin. destruct Hin as [[i m] [E Hi]]. cbn in E. subst i.
+    apply Hf in Hi. lia.
+  - intros n' i. unfold upd. rewrite in_app_iff. cbn. destruct (String.eqb n' n) eqn:E.
+    + apply String.eqb_eq in E. subst n'. split.
+      * intros H. inversion H; subst. auto.
+      * intros [Hi|[Hi|[]]]; [|inversion Hi; auto].
+        exfalso. apply Hni. apply in_map_iff. exists (i, n). auto.
+    + apply String.eqb_neq in E. rewrite Hm. split; auto.
+      intros [Hi|[Hi|[]]]; auto. inversion Hi; subst. congruence.
+  - intros i m Hi. apply in_app_or in Hi. destruct Hi as [Hi|[Hi|[]]].
+    + apply Hf in Hi. lia.
+    + inversion Hi; subst. lia.
+Qed.
+
+Lemma remove_id_spec : forall (l : list (nat * string)) i n, NoDup (map fst l) -> NoDup (map snd l) -> In (i, n) l ->
+  map snd (remove_id i l) = remove_first n (map snd l) /\
+  (forall j m, In (j, m) (remove_id i l) <-> In (j, m) l /\ j <> i) /\
+  NoDup (map fst (remove_id i l)).
+Proof.
+  induction l as [|[j m] l IH]; cbn; intros i n Hnf Hns Hin; [tauto|].
+  inversion Hnf as [|? ? Hj Hl]; subst. inversion Hns as [|? ? Hm Hl2]; subst.
+  destruct (Nat.eqb j i) eqn:E.
+  - apply Nat.eqb_eq in E. subst j.
+    assert (m = n).
+    { destruct Hin as [H|H]; [inversion H; auto|]. exfalso. apply Hj. apply in_map_iff. exists (i, n). auto. }
+    subst m. rewrite String.eqb_refl. split; auto. split; auto.
+    intros j m. split.
+    + intros H. split; auto. intros ->. apply Hj. apply in_map_iff. exists (i, m). auto.
+    + intros [[H|H] Hne]; auto. inversion H; subst. congruence.
+  - apply Nat.eqb_neq in E. destruct Hin as [H|H]; [inversion H; subst; congruence|].
+    assert (n <> m).
+    { intros ->. apply Hm. apply in_map_iff. exists (i, m). auto. }
+    destruct (String.eqb n m) eqn:E2; [apply String.eqb_eq in E2; congruence|].
+    destruct (IH i n Hl Hl2 H) as [I1 [I2 I3]]. cbn. split; [rewrite I1; reflexivity|]. split.
+    + intros j' m'. rewrite I2. split.
+      * intros [Hh|[Hh Hne]]; auto. inversion Hh; subst. auto.
+      * intros [[Hh|Hh] Hne]; auto.
+    + constructor; auto. intros Hc. apply in_map_iff in Hc. destruct Hc as [[j' m'] [Ej Hj']]. cbn in Ej. subst j'.
+      apply I2 in Hj'. destruct Hj' as [Hj' _]. apply Hj. apply in_map_iff. exists (j, m'). auto.
+Qed.
+
+Lemma nodup_fst_fun : forall (l : list (nat * string)) i a b, NoDup (map fst l) ->
+  In (i, a) l -> In (i, b) l -> a = b.
+Proof.
+  induction l as [|[j m] l IH]; cbn; intros i a b Hn Ha Hb; [tauto|].
+  inversion Hn as [|? ? Hj Hl]; subst.
+  destruct Ha as [Ha|Ha]; destruct Hb as [Hb|Hb].
+  - inversion Ha; inversion Hb; subst; auto.
+  - inversion Ha; subst. exfalso. apply Hj. apply in_map_iff. exists (i, b). auto.
+  - inversion Hb; subst. exfalso. apply Hj. apply in_map_iff. exists (i, a). auto.
+  - eapply IH; eauto.
+Qed.
+
+Lemma remove_ok : forall s n, WFres s -> In n (res_names s) ->
+  exists s', res_remove n s = Some s' /\ WFres s' /\ res_names s' = remove_first n (res_names s).
+Proof.
+  intros s n Hw Hin. pose proof (WFres_names_nodup s Hw) as Hnn. pose proof Hw as [Hn [Hm Hf]].
+  unfold res_names in Hin. apply in_map_iff in Hin. destruct Hin as [[i m] [E Hi]]. cbn in E. subst m.
+  pose proof Hi as Hi'. apply Hm in Hi'. unfold res_remove. rewrite Hi'.
+  destruct (remove_id_spec (r_atoms s) i n Hn Hnn Hi) as [R1 [R2 R3]].
+  eexists. split; [reflexivity|]. split; [|exact R1].
+  split; [|split]; cbn [r_atoms r_map r_fresh]; auto.
+  - intros n' j. unfold upd. rewrite R2. destruct (String.eqb n' n) eqn:E.
+    + apply String.eqb_eq in E. subst n'. split; [discriminate|].
+      intros [Hj Hne]. apply Hm in Hj. congruence.
+    + apply String.eqb_neq in E. rewrite Hm. split; [|tauto].
+      intros Hj. split; auto. intros ->. apply E. apply (nodup_fst_fun (r_atoms s) i n' n); auto.
+  - intros j m Hj. apply R2 in Hj. apply (Hf j m). tauto.
+Qed.
+
+Lemma rename_ok : forall s o n, WFres s -> In o (res_names s) -> ~ In n (res_names s) ->
+  exists s', res_rename o n s = Some s' /\ WFres s' /\ res_names s' = replace_first o n (res_names s).
+Proof.
+  intros s o n Hw Hin Hni. pose proof (WFres_names_nodup s Hw) as Hnn. pose proof Hw as [Hn [Hm Hf]].
+  unfold res_names in Hin. apply in_map_iff in Hin. destruct Hin as [[i m] [E Hi]]. cbn in E. subst m.
+  pose proof Hi as Hi'. apply Hm in Hi'. unfold res_rename. rewrite Hi'.
+  eexists. split; [reflexivity|].
+  set (f := fun a : nat * string => if Nat.eqb (fst a) i then (i, n) else a).
+  assert (Hfst : map fst (map f (r_atoms s)) = map fst (r_atoms s)).
+  { rewrite map_map. apply map_ext. intros [j m]. unfold f. cbn. destruct (Nat.eqb j i) eqn:E; auto.
+    apply Nat.eqb_eq in E. subst. reflexivity. }
+  assert (Hin' : forall j m, In (j, m) (map f (r_atoms s)) <-> (In (j, m) (r_atoms s) /\ j <> i) \/ (j = i /\ m = n)).
+  { intros j m. rewrite in_map_iff. split.
+    - intros [[j' m'] [E Hj]]. unfold f in E. cbn in E. destruct (Nat.eqb j' i) eqn:E2.
+      + inversion E; subst. auto.
+      + inversion E; subst. apply Nat.eqb_neq in E2. auto.
+    - intros [[Hj Hne]|[-> ->]].
+      + exists (j, m). split; auto. unfold f. cbn. apply Nat.eqb_neq in Hne. rewrite Hne. reflexivity.
+      + exists (i, o). split; auto. unfold f. cbn. rewrite Nat.eqb_refl. reflexivity. }
+  split.
+  - split; [|split]; cbn [r_atoms r_map r_fresh].
+    + rewrite Hfst. auto.
+    + intros n' j. rewrite Hin'. unfold upd.
+      assert (Hon : o <> n) by (intros ->; apply Hni; apply in_map_iff; exists (i, n); auto).
+      destruct (String.eqb n' o) eqn:E1.
+      * apply String.eqb_eq in E1. subst n'. split; [discriminate|].
+        intros [[Hj Hne]|[_ Hc]]; [|congruence]. apply Hm in Hj. congruence.
+      * apply String.eqb_neq in E1. destruct (String.eqb n' n) eqn:E2.
+        -- apply String.eqb_eq in E2. subst n'. split.
+           ++ intros Hs. inversion Hs; subst. auto.
+           ++ intros [[Hj _]|[-> _]]; auto. exfalso. apply Hni. apply in_map_iff. exists (j, n). auto.
+        -- apply String.eqb_neq in E2. rewrite Hm. split.
+           ++ intros Hj. left. split; auto. intros ->. apply E1. apply (nodup_fst_fun (r_atoms s) i n' o); auto.
+           ++ intros [[Hj _]|[_ Hc]]; [auto|congruence].
+    + intros j m Hj. apply Hin' in Hj. destruct Hj as [[Hj _]|[-> _]]; eauto.
+  - unfold res_names in *. cbn [r_atoms]. clear -Hn Hnn Hi. revert Hn Hnn Hi.
+    induction (r_atoms s) as [|[j m] l IH]; cbn; intros Hn Hnn Hi; [tauto|].
+    inversion Hn as [|? ? Hj Hl]; subst. inversion Hnn as [|? ? Hm Hl2]; subst.
+    destruct (Nat.eqb j i) eqn:E.
+    + apply Nat.eqb_eq in E. subst j.
+      assert (Hmo : m = o).
+      { destruct Hi as [Hx|Hx]; [inversion Hx; auto|]. exfalso. apply Hj. apply in_map_iff. exists (i, o). auto. }
+      subst m. rewrite String.eqb_refl. unfold f at 1. cbn. rewrite Nat.eqb_refl. cbn. f_equal.
+      (* the rest is unchanged: no other atom has id i *)
+      clear -Hj. induction l as [|[j m] l IH]; cbn; auto. cbn in Hj.
+      unfold f at 1. cbn. destruct (Nat.eqb j i) eqn:E; [apply Nat.eqb_eq in E; subst; tauto|].
+      cbn. f_equal. apply IH. tauto.
+    + apply Nat.eqb_neq in E. destruct Hi as [Hx|Hx]; [inversion Hx; subst; congruence|].
+      assert (Hom : o <> m) by (intros ->; apply Hm; apply in_map_iff; exists (i, m); auto).
+      destruct (String.eqb o m) eqn:E2; [apply String.eqb_eq in E2; congruence|].
+      unfold f at 1. cbn. apply Nat.eqb_neq in E. rewrite E. cbn. f_equal. apply IH; auto.
+Qed.
+
+Lemma keyerror_ok : forall s n x, WFres s -> ~ In n (res_names s) ->
+  res_remove n s = None /\ res_rename n x s = None.
+Proof.
+  intros s n x Hw Hni. pose proof Hw as [_ [Hm _]]. unfold res_remove, res_rename.
+  destruct (r_map s n) as [i|] eqn:E; auto. exfalso. apply Hni. apply Hm in E.
+  apply in_map_iff. exists (i, n). auto.
+Qed.
+
+(* operation sequences: as long as every guard of the name-list layer holds, the
+   object-list + dict layer does not raise, its dict and list stay consistent (WFres:
+   no duplicate objects, dict = exactly the (name, object) pairs of the list, hence no
+   duplicate names and has_atom = membership), and both layers list the same names in
+   the same order *)
+Definition rop_of (o : op) : rop :=
+  match o with Create n => RCreate n | Remove n => RRemove n | Rename a b => RRename a b end.
+
+Fixpoint apply_ops (w : W) (l : list op) : option W :=
+  match l with
+  | [] => Some w
+  | o :: r => match apply_op w o with Some w' => apply_ops w' r | None => None end
+  end.
+
+Theorem layers_agree : forall ops s w w', WFres s -> res_names s = w_names w ->
+  apply_ops w ops = Some w' ->
+  exists s', res_run s (map rop_of ops) = Some s' /\ WFres s' /\ res_names s' = w_names w' /\
+             NoDup (w_names w') /\ (forall n, res_has n s' = mem n (w_names w')).
+Proof.
+  induction ops as [|o ops IH]; intros s w w' Hw Hn Ha; cbn in Ha.
+  - inversion Ha; subst. exists s. cbn. split; auto. split; auto. split; auto. split.
+    + rewrite <- Hn. apply WFres_names_nodup; auto.
+    + intros n. rewrite <- Hn. destruct (mem n (res_names s)) eqn:E.
+      * apply WFres_has; auto. apply mem_In; auto.
+      * destruct (res_has n s) eqn:E2; auto. apply WFres_has in E2; auto. apply mem_In in E2. congruence.
+  - destruct (apply_op w o) as [w1|] eqn:E1; [|discriminate].
+    destruct o as [n|n|a b]; cbn [apply_op] in E1; cbn [map rop_of res_run].
+    + unfold cr in E1. destruct (mem n (w_names w)) eqn:Em; [discriminate|]. inversion E1; subst w1. clear E1.
+      assert (Hni : ~ In n (res_names s)) by (rewrite Hn; intros H; apply mem_In in H; congruence).
+      destruct (create_ok s n Hw Hni) as [Hw1 Hn1]. eapply (IH _ _ _ Hw1); [|exact Ha]. cbn [w_names]. rewrite Hn1, Hn. reflexivity.
+    + unfold rm in E1. destruct (mem n (w_names w)) eqn:Em; [|discriminate]. inversion E1; subst w1. clear E1.
+      assert (Hin : In n (res_names s)) by (rewrite Hn; apply mem_In; auto).
+      destruct (remove_ok s n Hw Hin) as [s1 [R1 [Hw1 Hn1]]]. rewrite R1. eapply (IH _ _ _ Hw1); [|exact Ha].
+      cbn [w_names]. rewrite Hn1, Hn. reflexivity.
+    + unfold rn in E1. destruct (mem a (w_names w)) eqn:Ea; [|discriminate].
+      destruct (mem b (w_names w)) eqn:Eb; [discriminate|]. cbn in E1. inversion E1; subst w1. clear E1.
+      assert (Hin : In a (res_names s)) by (rewrite Hn; apply mem_In; auto).
+      assert (Hni : ~ In b (res_names s)) by (rewrite Hn; intros H; apply mem_In in H; congruence).
+      destruct (rename_ok s a b Hw Hin Hni) as [s1 [R1 [Hw1 Hn1]]]. rewrite R1. eapply (IH _ _ _ Hw1); [|exact Ha].
+      cbn [w_names]. rewrite Hn1, Hn. reflexivity.
+Qed.
+
+(* ---- the table theorems as corollaries of the parametric ones --------------- *)
+
+Definition all_instances_wf (l : list instance) : bool := forallb inst_wf l.
+
+Theorem flip_table_param : forall l i mv, all_instances_wf l = true -> In i l -> i_kind i = KFlip mv ->
+  proto_ok _ _ (flip_step mv) flip_complete (i_expected i) (flip_start (i_base i) mv).
+Proof.
+  intros l i mv H Hi Hk. unfold all_instances_wf in H. rewrite forallb_forall in H. specialize (H i Hi).
+  unfold inst_wf in H. rewrite Hk in H. apply andb_true_iff in H. destruct H as [Hw He].
+  apply nl_eqb_eq in He. rewrite He. apply flip_names_param. exact Hw.
+Qed.
+
+Theorem alc_table_param : forall l i h, all_instances_wf l = true -> In i l -> i_kind i = KAlc h ->
+  proto_ok _ _ (alc_step h) (alc_complete h) (i_expected i) (alc_start h (i_base i)).
+Proof.
+  intros l i h H Hi Hk. unfold all_instances_wf in H. rewrite forallb_forall in H. specialize (H i Hi).
+  unfold inst_wf in H. rewrite Hk in H. apply andb_true_iff in H. destruct H as [Hw He].
+  apply nl_eqb_eq in He. rewrite He. apply alc_names_param. exact Hw.
+Qed.
+
+Theorem wat_table_param : forall l i, all_instances_wf l = true -> In i l -> i_kind i = KWat ->
+  proto_ok _ _ wat_step wat_complete (i_expected i) (wat_start (i_base i)).
+Proof.
+  intros l i H Hi Hk. unfold all_instances_wf in H. rewrite forallb_forall in H. specialize (H i Hi).
+  unfold inst_wf in H. rewrite Hk in H. apply andb_true_iff in H. destruct H as [Hw He].
+  apply nl_eqb_eq in He. rewrite He. apply wat_names_param. exact Hw.
+Qed.
+
+(* ======================================================================
+   repair_heavy + add_hydrogens accounting (name level)
+   ====================================================================== *)
+
+Lemma remove_first_app_mid : forall a (k r : nl), ~ In a k -> remove_first a (k ++ a :: r) = (k ++ r)%list.
+Proof.
+  induction k as [|z k IH]; cbn; intros r H.
+  - rewrite String.eqb_refl. reflexivity.
+  - destruct (String.eqb a z) eqn:E; [apply String.eqb_eq in E; subst; tauto|]. f_equal. apply IH. tauto.
+Qed.
+
+Lemma mem_false_notin : forall x (l : nl), mem x l = false <-> ~ In x l.
+Proof.
+  intros. rewrite <- mem_In. destruct (mem x l); split; intros H; try discriminate; auto.
+  exfalso. apply H. reflexivity.
+Qed.
+
+Lemma NoDup_app_intro : forall (a b : nl), NoDup a -> NoDup b -> (forall x, In x a -> In x b -> False) -> NoDup (a ++ b).
+Proof.
+  induction a as [|z a IH]; cbn; intros b Ha Hb Hd; auto.
+  inversion Ha; subst. constructor.
+  - intros Hc. apply in_app_or in Hc. destruct Hc; [contradiction|]. apply (Hd z); auto.
+  - apply IH; auto. intros x Hx. apply Hd. auto.
+Qed.
+
+Section RepairProofs.
+  Variable ref : nl.
+  Let inref (a : string) : bool := mem a ref.
+  Let always (_ : string) (_ : nl) : bool := true.
+
+  Lemma keep_alias_false : forall a cur, mem "OP1" cur = false -> mem "OP2" cur = false -> keep_alias a cur = false.
+  Proof. intros a cur H1 H2. unfold keep_alias. rewrite H1, H2. rewrite !andb_false_r. reflexivity. Qed.
+
+  Lemma drop_extras_spec : forall todo kept log logged,
+    NoDup (kept ++ todo) -> mem "OP1" (kept ++ todo) = false -> mem "OP2" (kept ++ todo) = false ->
+    exists w', drop_extras ref todo (mkW (kept ++ todo) log) logged =
+                 Some (w', (logged ++ filter (fun a => negb (inref a)) todo)%list) /\
+               w_names w' = (kept ++ filter inref todo)%list.
+  Proof.
+    induction todo as [|a r IH]; intros kept log logged Hn H1 H2.
+    - cbn. rewrite !app_nil_r. eexists. split; reflexivity.
+    - cbn [drop_extras]. cbn [w_names]. rewrite keep_alias_false by auto. cbn [filter]. unfold inref at 1 3. fold (inref a).
+      destruct (inref a) eqn:Ei; cbn [negb].
+      + replace (kept ++ a :: r)%list with ((kept ++ [a]) ++ r)%list in * by (rewrite <- app_assoc; reflexivity).
+        destruct (IH (kept ++ [a])%list log logged Hn H1 H2) as [w' [E' N']].
+        exists w'. rewrite E'. split; auto. rewrite N'. rewrite <- app_assoc. reflexivity.
+      + assert (Hni : ~ In a kept).
+        { apply NoDup_remove_2 in Hn. intros Hc. apply Hn. apply in_or_app. auto. }
+        unfold rm. cbn [w_names w_log].
+        assert (Hm : mem a (kept ++ a :: r) = true) by (apply mem_In; apply in_or_app; right; cbn; auto).
+        rewrite Hm. rewrite remove_first_app_mid by auto.
+        assert (Hn' : NoDup (kept ++ r)) by (apply NoDup_remove_1 in Hn; auto).
+        assert (H1' : mem "OP1" (kept ++ r) = false).
+        { apply mem_false_notin. apply mem_false_notin in H1. intros Hc. apply H1.
+          apply in_app_or in Hc. apply in_or_app. destruct Hc; auto. right. cbn. auto. }
+        assert (H2' : mem "OP2" (kept ++ r) = false).
+        { apply mem_false_notin. apply mem_false_notin in H2. intros Hc. apply H2.
+          apply in_app_or in Hc. apply in_or_app. destruct Hc; auto. right. cbn. auto. }
+        destruct (IH kept (log ++ [Remove a])%list (logged ++ [a])%list Hn' H1' H2') as [w' [E' N']].
+        exists w'. rewrite E'. split; auto. rewrite <- app_assoc. reflexivity.
+  Qed.
+
+  Lemma rebuild_always : forall missing fuel n seen w logged,
+    List.length missing < fuel -> NoDup (w_names w ++ missing) ->
+    exists w', rebuild always fuel n missing seen w logged = RDone w' logged /\
+               w_names w' = (w_names w ++ missing)%list.
+  Proof.
+    induction missing as [|a r IH]; intros fuel n seen w logged Hf Hn.
+    - destruct fuel; [cbn in Hf; lia|]. cbn. rewrite app_nil_r. eexists. split; reflexivity.
+    - destruct fuel; [cbn in Hf; lia|]. cbn [rebuild]. unfold always at 1.
+      destruct (cr_spec a w) as [w1 [E1 N1]].
+      { apply NoDup_remove_2 in Hn. intros Hc. apply Hn. apply in_or_app. auto. }
+      rewrite E1. destruct (IH fuel n seen w1 logged) as [w' [E' N']].
+      + cbn in Hf. lia.
+      + rewrite N1. rewrite <- app_assoc. exact Hn.
+      + exists w'. split; auto. rewrite N', N1. rewrite <- app_assoc. reflexivity.
+  Qed.
+
+  Lemma add_h_spec : forall ssb todo w, NoDup (w_names w) ->
+    exists w', fold_left (fun acc r => acc >>= fun w' =>
+        if is_hyd r && negb (has r w') && negb (ssb && String.eqb r "HG")
+        then (if always r (w_names w') then cr r w' else Some w') else Some w') todo (Some w) = Some w' /\
+      NoDup (w_names w') /\
+      forall x, In x (w_names w') <-> In x (w_names w) \/
+                                      (In x todo /\ is_hyd x = true /\ ~ (ssb = true /\ x = "HG"%string)).
+  Proof.
+    induction todo as [|r todo IH]; intros w Hn.
+    - exists w. cbn. split; auto. split; auto. intros x. tauto.
+    - cbn [fold_left bind].
+      destruct (is_hyd r && negb (has r w) && negb (ssb && String.eqb r "HG")) eqn:Ec.
+      + unfold always at 1.
+        apply andb_true_iff in Ec. destruct Ec as [Ec E3]. apply andb_true_iff in Ec. destruct Ec as [E1 E2].
+        apply negb_true_iff in E2. apply negb_true_iff in E3.
+        destruct (cr_spec r w) as [w1 [C1 N1]]; [apply has_false; auto|]. rewrite C1.
+        destruct (IH w1) as [w' [E' [Nd' S']]].
+        { rewrite N1. apply NoDup_app_last; auto. apply has_false; auto. }
+        exists w'. split; auto. split; auto. intros x. rewrite S', N1, in_app_iff. cbn [In]. split.
+        * intros [[H|[<-|[]]]|[H1 H2]].
+          -- left. exact H.
+          -- right. split; [left; reflexivity|]. split; [exact E1|]. intros [Hs Hg]. subst. cbn in E3. discriminate.
+          -- right. split; [right; exact H1|exact H2].
+        * intros [H|[[<-|H] H2]].
+          -- left. left. exact H.
+          -- left. right. left. reflexivity.
+          -- right. split; auto.
+      + destruct (IH w Hn) as [w' [E' [Nd' S']]]. exists w'. split; auto. split; auto.
+        intros x. rewrite S'. cbn [In]. split.
+        * intros [H|[H1 H2]]; [left; exact H|right; split; [right; exact H1|exact H2]].
+        * intros [H|[[<-|H] [H2 H3]]]; [left; exact H| |right; split; [exact H|split; [exact H2|exact H3]]].
+          left. apply andb_false_iff in Ec. destruct Ec as [Ec|Ec].
+          -- apply andb_false_iff in Ec. destruct Ec as [Ec|Ec]; [congruence|].
+             apply negb_false_iff in Ec. apply has_In. auto.
+          -- apply negb_false_iff in Ec. apply andb_true_iff in Ec. destruct Ec as [-> Ec].
+             apply String.eqb_eq in Ec. exfalso. apply H3. auto.
+  Qed.
+
+  (* for every residue (any names, any extra or missing atoms, no OP1/OP2 aliasing): if the
+     rebuild oracles never fail, repair_heavy logs and deletes exactly the names outside the
+     reference, never raises, and after add_hydrogens the residue holds exactly the
+     reference's atoms (pseudo atoms excepted; HG of a bridged cysteine is not built) *)
+  Theorem repair_add_complete : forall ns ssb,
+    NoDup ns -> NoDup ref -> mem "OP1" ns = false -> mem "OP2" ns = false ->
+    (forall x, In x ns -> is_pseudo x = false) ->
+    exists w logged, repair_heavy ref always true ns = RDone w logged /\
+      logged = filter (fun a => negb (mem a ref)) ns /\
+      exists w', add_hydrogens ref always ssb w = Some w' /\ NoDup (w_names w') /\
+        forall x, In x (w_names w') <->
+                  In x ref /\ is_pseudo x = false /\ ~ (ssb = true /\ x = "HG"%string /\ ~ In x ns).
+  Proof.
+    intros ns ssb Hn Hr H1 H2 Hps. unfold repair_heavy. cbn [negb].
+    destruct (drop_extras_spec ns [] [] []) as [w1 [E1 N1]]; auto.
+    cbn [app] in E1, N1. rewrite E1.
+    set (miss := missing_heavy ref ns).
+    assert (Hmiss : forall x, In x miss <-> In x ref /\ is_hyd x = false /\ is_pseudo x = false /\ ~ In x ns).
+    { intros x. unfold miss, missing_heavy. rewrite filter_In.
+      assert (Ha : phos_alias x ns = false) by (unfold phos_alias; rewrite H1, H2; rewrite !andb_false_r; reflexivity).
+      rewrite Ha. cbn [negb]. rewrite andb_true_r. rewrite !andb_true_iff, !negb_true_iff. rewrite mem_false_notin. tauto. }
+    assert (Hnd2 : NoDup (w_names w1 ++ miss)).
+    { rewrite N1. apply NoDup_app_intro.
+      - apply NoDup_filter. auto.
+      - unfold miss, missing_heavy. apply NoDup_filter. auto.
+      - intros x Hx Hm. apply filter_In in Hx. apply Hmiss in Hm. tauto. }
+    destruct (rebuild_always miss (repair_fuel (List.length miss)) (List.length miss) [] w1
+                (filter (fun a => negb (inref a)) ns)) as [w2 [E2 N2]]; auto.
+    { unfold repair_fuel. lia. }
+    fold miss. unfold always in *. rewrite E2. exists w2. eexists. split; [reflexivity|]. split; [reflexivity|].
+    unfold add_hydrogens.
+    destruct (add_h_spec ssb ref w2) as [w3 [E3 [Nd3 S3]]]; [rewrite N2; auto|].
+    exists w3. split; [exact E3|]. split; auto.
+    intros x. rewrite S3, N2, N1, in_app_iff, filter_In, Hmiss. unfold inref. split.
+    - intros [[[Hx Hm]|[Hx [Hh [Hp Hni]]]]|[Hx [Hh Hs]]].
+      + apply mem_In in Hm. split; auto. split; auto. intros [_ [_ Hc]]. auto.
+      + split; auto. split; auto. intros [_ [-> _]]. cbn in Hh. discriminate.
+      + split; auto. split.
+        * unfold is_pseudo. destruct (String.eqb x "N+1") eqn:Ea; [apply String.eqb_eq in Ea; subst; cbn in Hh; discriminate|].
+          destruct (String.eqb x "C-1") eqn:Eb; [apply String.eqb_eq in Eb; subst; cbn in Hh; discriminate|]. reflexivity.
+        * intros [Hs1 [Hs2 _]]. apply Hs. auto.
+    - intros [Hx [Hp Hs]]. destruct (in_dec string_dec x ns) as [Hi|Hi].
+      + left. left. split; auto. apply mem_In. auto.
+      + destruct (is_hyd x) eqn:Eh.
+        * right. split; auto. split; auto. intros [Hs1 Hs2]. apply Hs. auto.
+        * left. right. auto.
+  Qed.
+End RepairProofs.
+
+Lemma rtemplates_meaning : forall l t, rtemplates_ok l = true -> In t l ->
+  rebuild_from_backbone_ok t = true /\ rebuild_single_ok t = true.
+Proof.
+  intros l t H Ht. unfold rtemplates_ok in H. rewrite forallb_forall in H. specialize (H t Ht).
+  apply andb_true_iff in H. exact H.
 Qed.
